@@ -4029,6 +4029,7 @@ type cond =
 | NonNull of (job_view -> n)
 | ValIn of (job_view -> n) * n list
 | ValBetween of (job_view -> n) * n * n
+| ValAtLeast of (job_view -> n) * n
 | MultipleOf of (job_view -> n) * n
 | SameAs of (job_view -> n) * (job_view -> n)
 | Neg of cond
@@ -4050,6 +4051,16 @@ let pon_pli j =
   w16
     (N.shiftr (bswap64 j.jv_mem_xgem_hdr) (Npos (XO (XI (XO (XO (XI XH)))))))
 
+(** val seg_in_ok : sgl_seg -> bool **)
+
+let seg_in_ok s =
+  (||) (N.eqb s.seg_len N0) (negb (N.eqb s.seg_in N0))
+
+(** val seg_out_ok : sgl_seg -> bool **)
+
+let seg_out_ok s =
+  (||) (N.eqb s.seg_len N0) (negb (N.eqb s.seg_out N0))
+
 (** val sgl_total : sgl_seg list -> n **)
 
 let sgl_total segs =
@@ -4062,6 +4073,7 @@ let rec holds c j =
   | NonNull f -> negb (N.eqb (f j) N0)
   | ValIn (f, vs) -> existsb (N.eqb (f j)) vs
   | ValBetween (f, lo, hi) -> (&&) (N.leb lo (f j)) (N.leb (f j) hi)
+  | ValAtLeast (f, lo) -> N.leb lo (f j)
   | MultipleOf (f, n0) -> N.eqb (N.modulo (f j) n0) N0
   | SameAs (f, g) -> N.eqb (f j) (g j)
   | Neg a -> negb (holds a j)
@@ -4082,12 +4094,8 @@ let rec holds c j =
   | SglArrayNonNull ->
     (||) (N.eqb (jv_num_sgl_io_segs j) N0)
       (negb (N.eqb (jv_sgl_io_segs j) N0))
-  | SglSegInNonNull ->
-    forallb (fun s -> (||) (N.eqb s.seg_len N0) (negb (N.eqb s.seg_in N0)))
-      j.jv_sgl_segs
-  | SglSegOutNonNull ->
-    forallb (fun s -> (||) (N.eqb s.seg_len N0) (negb (N.eqb s.seg_out N0)))
-      j.jv_sgl_segs
+  | SglSegInNonNull -> forallb seg_in_ok j.jv_sgl_segs
+  | SglSegOutNonNull -> forallb seg_out_ok j.jv_sgl_segs
   | SglTotalAtMost m -> N.leb (sgl_total j.jv_sgl_segs) m
 
 type rule = { r_name : string; r_cond : cond; r_err : n }
@@ -4186,15 +4194,6 @@ let hashLenNonZero =
 
 let hasAad =
   Neg (ValIn ((fun j -> j.jv_u1), (N0 :: [])))
-
-(** val u64_max : n **)
-
-let u64_max =
-  Npos (XI (XI (XI (XI (XI (XI (XI (XI (XI (XI (XI (XI (XI (XI (XI (XI (XI
-    (XI (XI (XI (XI (XI (XI (XI (XI (XI (XI (XI (XI (XI (XI (XI (XI (XI (XI
-    (XI (XI (XI (XI (XI (XI (XI (XI (XI (XI (XI (XI (XI (XI (XI (XI (XI (XI
-    (XI (XI (XI (XI (XI (XI (XI (XI (XI (XI
-    XH)))))))))))))))))))))))))))))))))))))))))))))))))))))))))))))))
 
 (** val mB_MAX_LEN16 : n **)
 
@@ -4500,6 +4499,49 @@ let r_iv_len vs =
     false)), (String ((Ascii (false, false, true, false, false, true, true,
     false)), EmptyString)))))))))))))))))))))))))))))))))))))); r_cond =
     (ivLenIn vs); r_err = iMB_ERR_JOB_IV_LEN }
+
+(** val r_cipher_len_min : n -> rule **)
+
+let r_cipher_len_min lo =
+  { r_name = (String ((Ascii (true, true, false, false, false, true, true,
+    false)), (String ((Ascii (true, false, false, true, false, true, true,
+    false)), (String ((Ascii (false, false, false, false, true, true, true,
+    false)), (String ((Ascii (false, false, false, true, false, true, true,
+    false)), (String ((Ascii (true, false, true, false, false, true, true,
+    false)), (String ((Ascii (false, true, false, false, true, true, true,
+    false)), (String ((Ascii (false, false, false, false, false, true, false,
+    false)), (String ((Ascii (false, false, true, true, false, true, true,
+    false)), (String ((Ascii (true, false, true, false, false, true, true,
+    false)), (String ((Ascii (false, true, true, true, false, true, true,
+    false)), (String ((Ascii (true, true, true, false, false, true, true,
+    false)), (String ((Ascii (false, false, true, false, true, true, true,
+    false)), (String ((Ascii (false, false, false, true, false, true, true,
+    false)), (String ((Ascii (false, false, false, false, false, true, false,
+    false)), (String ((Ascii (false, true, true, true, false, true, true,
+    false)), (String ((Ascii (true, true, true, true, false, true, true,
+    false)), (String ((Ascii (false, false, true, false, true, true, true,
+    false)), (String ((Ascii (false, false, false, false, false, true, false,
+    false)), (String ((Ascii (false, true, false, false, false, true, true,
+    false)), (String ((Ascii (true, false, true, false, false, true, true,
+    false)), (String ((Ascii (false, false, true, true, false, true, true,
+    false)), (String ((Ascii (true, true, true, true, false, true, true,
+    false)), (String ((Ascii (true, true, true, false, true, true, true,
+    false)), (String ((Ascii (false, false, false, false, false, true, false,
+    false)), (String ((Ascii (false, false, true, false, true, true, true,
+    false)), (String ((Ascii (false, false, false, true, false, true, true,
+    false)), (String ((Ascii (true, false, true, false, false, true, true,
+    false)), (String ((Ascii (false, false, false, false, false, true, false,
+    false)), (String ((Ascii (true, false, true, true, false, true, true,
+    false)), (String ((Ascii (true, false, false, true, false, true, true,
+    false)), (String ((Ascii (false, true, true, true, false, true, true,
+    false)), (String ((Ascii (true, false, false, true, false, true, true,
+    false)), (String ((Ascii (true, false, true, true, false, true, true,
+    false)), (String ((Ascii (true, false, true, false, true, true, true,
+    false)), (String ((Ascii (true, false, true, true, false, true, true,
+    false)),
+    EmptyString))))))))))))))))))))))))))))))))))))))))))))))))))))))))))))))))))))));
+    r_cond = (ValAtLeast ((fun j -> j.jv_msg_len_to_cipher), lo)); r_err =
+    iMB_ERR_JOB_CIPH_LEN }
 
 (** val r_cipher_len : n -> n -> rule **)
 
@@ -5247,9 +5289,8 @@ let sgl_rules max_len =
 let rules_CBC =
   r_src :: (r_dst :: (r_iv :: (r_enc_keys_if_enc :: (r_dec_keys_if_dec :: (
     (r_key_len ((Npos (XO (XO (XO (XO XH))))) :: ((Npos (XO (XO (XO (XI
-      XH))))) :: ((Npos (XO (XO (XO (XO (XO XH)))))) :: [])))) :: ((r_cipher_len
-                                                                    (Npos XH)
-                                                                    u64_max) :: (
+      XH))))) :: ((Npos (XO (XO (XO (XO (XO XH)))))) :: [])))) :: ((r_cipher_len_min
+                                                                    (Npos XH)) :: (
     (r_cipher_len_mult (Npos (XO (XO (XO (XO XH)))))) :: ({ r_name = (String
     ((Ascii (true, false, true, false, false, true, true, false)), (String
     ((Ascii (false, true, true, true, false, true, true, false)), (String
@@ -5366,7 +5407,7 @@ let rules_CNTR =
                                                 (XO (XO (XO (XO
                                                 XH)))))) :: [])))) :: (
     (r_iv_len ((Npos (XO (XO (XI XH)))) :: ((Npos (XO (XO (XO (XO
-      XH))))) :: []))) :: ((r_cipher_len (Npos XH) u64_max) :: []))))))
+      XH))))) :: []))) :: ((r_cipher_len_min (Npos XH)) :: []))))))
 
 (** val rules_CNTR_BITLEN : rule list **)
 
@@ -5376,8 +5417,8 @@ let rules_CNTR_BITLEN =
                                                 (XO (XI XH))))) :: ((Npos (XO
                                                 (XO (XO (XO (XO
                                                 XH)))))) :: [])))) :: (
-    (r_iv_len ((Npos (XO (XO (XO (XO XH))))) :: [])) :: ((r_cipher_len (Npos
-                                                           XH) u64_max) :: []))))))
+    (r_iv_len ((Npos (XO (XO (XO (XO XH))))) :: [])) :: ((r_cipher_len_min
+                                                           (Npos XH)) :: []))))))
 
 (** val rules_NULL : rule list **)
 
@@ -5423,8 +5464,8 @@ let rules_GCM =
     (String ((Ascii (true, false, true, false, false, true, true, false)),
     (String ((Ascii (false, true, false, false, true, true, true, false)),
     (String ((Ascii (true, true, true, true, false, true, true, false)),
-    EmptyString)))))))))))))))))))))))))))))))))))); r_cond =
-    (ivLenBetween (Npos XH) u64_max); r_err =
+    EmptyString)))))))))))))))))))))))))))))))))))); r_cond = (ValAtLeast
+    ((fun j -> j.jv_iv_len_in_bytes), (Npos XH))); r_err =
     iMB_ERR_JOB_IV_LEN } :: ((r_pair_hash iMB_AUTH_AES_GMAC) :: []))))))))
 
 (** val rules_GCM_SGL : rule list **)
@@ -5452,8 +5493,8 @@ let rules_GCM_SGL =
     (String ((Ascii (true, false, true, false, false, true, true, false)),
     (String ((Ascii (false, true, false, false, true, true, true, false)),
     (String ((Ascii (true, true, true, true, false, true, true, false)),
-    EmptyString)))))))))))))))))))))))))))))))))))); r_cond =
-    (ivLenBetween (Npos XH) u64_max); r_err =
+    EmptyString)))))))))))))))))))))))))))))))))))); r_cond = (ValAtLeast
+    ((fun j -> j.jv_iv_len_in_bytes), (Npos XH))); r_err =
     iMB_ERR_JOB_IV_LEN } :: [])))))) (sgl_rules iMB_GCM_MAX_LEN)
 
 (** val rules_SM4_GCM : rule list **)
@@ -5934,8 +5975,8 @@ let rules_PON =
     false, true, false, true, true, true, false)), (String ((Ascii (false,
     false, false, true, false, true, true, false)),
     EmptyString))))))))))))))))))))))))))))))))))))))))))))))))))))))))))))))))))))))))));
-    r_cond = (When ((cipherLenBetween (Npos (XO (XO XH))) u64_max),
-    PonPliFits)); r_err = iMB_ERR_JOB_PON_PLI } :: []))))))))))
+    r_cond = (When ((ValAtLeast ((fun j -> j.jv_msg_len_to_cipher), (Npos (XO
+    (XO XH))))), PonPliFits)); r_err = iMB_ERR_JOB_PON_PLI } :: []))))))))))
 
 (** val rules_ZUC_EEA3 : rule list **)
 
@@ -6072,8 +6113,8 @@ let rules_SM4_ECB =
                                                                     (XO (XO
                                                                     (XO (XO
                                                                     XH))))) :: [])) :: (
-    (r_cipher_len (Npos XH) u64_max) :: ((r_cipher_len_mult (Npos (XO (XO (XO
-                                           (XO XH)))))) :: []))))))
+    (r_cipher_len_min (Npos XH)) :: ((r_cipher_len_mult (Npos (XO (XO (XO (XO
+                                       XH)))))) :: []))))))
 
 (** val rules_SM4_CBC : rule list **)
 
@@ -6135,7 +6176,7 @@ let rules_SM4_CNTR =
   r_src :: (r_dst :: (r_iv :: (r_enc_keys :: ((r_key_len ((Npos (XO (XO (XO
                                                 (XO XH))))) :: [])) :: (
     (r_iv_len ((Npos (XO (XO (XI XH)))) :: ((Npos (XO (XO (XO (XO
-      XH))))) :: []))) :: ((r_cipher_len (Npos XH) u64_max) :: []))))))
+      XH))))) :: []))) :: ((r_cipher_len_min (Npos XH)) :: []))))))
 
 (** val rules_CFB : rule list **)
 
@@ -6559,7 +6600,7 @@ let rules_GMAC_STANDALONE =
     (false, true, false, false, true, true, true, false)), (String ((Ascii
     (true, true, true, true, false, true, true, false)),
     EmptyString)))))))))))))))))))))))))))))))))))))))))))))); r_cond =
-    (ValBetween ((fun j -> j.jv_u2), (Npos XH), u64_max)); r_err =
+    (ValAtLeast ((fun j -> j.jv_u2), (Npos XH))); r_err =
     iMB_ERR_JOB_IV_LEN } :: (r_hash_src_if_len :: []))))))
 
 (** val rules_GHASH : rule list **)
@@ -7363,9 +7404,30 @@ let rules_HMAC_SM3 =
     (String ((Ascii (false, false, true, true, false, false, true, false)),
     (String ((Ascii (false, false, true, true, false, false, true, false)),
     EmptyString)))))))))))))))))))))))); r_cond = (NonNull (fun j ->
-    j.jv_u1)); r_err =
-    iMB_ERR_JOB_NULL_HMAC_OPAD } :: ((r_hash_len (Npos XH) u64_max) :: [])))
-    rules_SM3
+    j.jv_u1)); r_err = iMB_ERR_JOB_NULL_HMAC_OPAD } :: ({ r_name = (String
+    ((Ascii (false, false, false, true, false, true, true, false)), (String
+    ((Ascii (true, false, false, false, false, true, true, false)), (String
+    ((Ascii (true, true, false, false, true, true, true, false)), (String
+    ((Ascii (false, false, false, true, false, true, true, false)), (String
+    ((Ascii (false, false, false, false, false, true, false, false)), (String
+    ((Ascii (false, false, true, true, false, true, true, false)), (String
+    ((Ascii (true, false, true, false, false, true, true, false)), (String
+    ((Ascii (false, true, true, true, false, true, true, false)), (String
+    ((Ascii (true, true, true, false, false, true, true, false)), (String
+    ((Ascii (false, false, true, false, true, true, true, false)), (String
+    ((Ascii (false, false, false, true, false, true, true, false)), (String
+    ((Ascii (false, false, false, false, false, true, false, false)), (String
+    ((Ascii (false, true, true, true, false, true, true, false)), (String
+    ((Ascii (true, true, true, true, false, true, true, false)), (String
+    ((Ascii (false, true, true, true, false, true, true, false)), (String
+    ((Ascii (true, false, true, true, false, true, false, false)), (String
+    ((Ascii (false, true, false, true, true, true, true, false)), (String
+    ((Ascii (true, false, true, false, false, true, true, false)), (String
+    ((Ascii (false, true, false, false, true, true, true, false)), (String
+    ((Ascii (true, true, true, true, false, true, true, false)),
+    EmptyString)))))))))))))))))))))))))))))))))))))))); r_cond = (ValAtLeast
+    ((fun j -> j.jv_msg_len_to_hash), (Npos XH))); r_err =
+    iMB_ERR_JOB_AUTH_LEN } :: []))) rules_SM3
 
 (** val rules_SM4_GCM_HASH : rule list **)
 
@@ -7446,9 +7508,9 @@ let hash_rules ha =
   | Some rs -> rs
   | None -> []
 
-(** val common_rules : rule list **)
+(** val r_common_dir : rule **)
 
-let common_rules =
+let r_common_dir =
   { r_name = (String ((Ascii (true, true, false, false, false, true, true,
     false)), (String ((Ascii (true, false, false, true, false, true, true,
     false)), (String ((Ascii (false, false, false, false, true, true, true,
@@ -7513,64 +7575,78 @@ let common_rules =
     r_cond = (Either ((ValIn ((fun j -> j.jv_cipher_direction),
     (iMB_DIR_ENCRYPT :: (iMB_DIR_DECRYPT :: [])))), (ValIn ((fun j ->
     j.jv_cipher_mode), (iMB_CIPHER_NULL :: []))))); r_err =
-    iMB_ERR_JOB_CIPH_DIR } :: ({ r_name = (String ((Ascii (true, true, false,
-    false, false, true, true, false)), (String ((Ascii (true, false, false,
-    true, false, true, true, false)), (String ((Ascii (false, false, false,
-    false, true, true, true, false)), (String ((Ascii (false, false, false,
-    true, false, true, true, false)), (String ((Ascii (true, false, true,
-    false, false, true, true, false)), (String ((Ascii (false, true, false,
-    false, true, true, true, false)), (String ((Ascii (false, false, false,
-    false, false, true, false, false)), (String ((Ascii (true, false, true,
-    true, false, true, true, false)), (String ((Ascii (true, true, true,
-    true, false, true, true, false)), (String ((Ascii (false, false, true,
-    false, false, true, true, false)), (String ((Ascii (true, false, true,
-    false, false, true, true, false)), (String ((Ascii (false, false, false,
-    false, false, true, false, false)), (String ((Ascii (true, false, false,
-    true, false, true, true, false)), (String ((Ascii (true, true, false,
-    false, true, true, true, false)), (String ((Ascii (false, false, false,
-    false, false, true, false, false)), (String ((Ascii (true, true, false,
-    false, true, true, true, false)), (String ((Ascii (true, false, true,
-    false, true, true, true, false)), (String ((Ascii (false, false, false,
-    false, true, true, true, false)), (String ((Ascii (false, false, false,
-    false, true, true, true, false)), (String ((Ascii (true, true, true,
-    true, false, true, true, false)), (String ((Ascii (false, true, false,
-    false, true, true, true, false)), (String ((Ascii (false, false, true,
-    false, true, true, true, false)), (String ((Ascii (true, false, true,
-    false, false, true, true, false)), (String ((Ascii (false, false, true,
-    false, false, true, true, false)),
-    EmptyString)))))))))))))))))))))))))))))))))))))))))))))))); r_cond =
-    (ValIn ((fun j -> j.jv_cipher_mode), (map fst cipher_catalogue)));
-    r_err = iMB_ERR_CIPH_MODE } :: ({ r_name = (String ((Ascii (false, false,
-    false, true, false, true, true, false)), (String ((Ascii (true, false,
-    false, false, false, true, true, false)), (String ((Ascii (true, true,
-    false, false, true, true, true, false)), (String ((Ascii (false, false,
-    false, true, false, true, true, false)), (String ((Ascii (false, false,
-    false, false, false, true, false, false)), (String ((Ascii (true, false,
-    false, false, false, true, true, false)), (String ((Ascii (false, false,
-    true, true, false, true, true, false)), (String ((Ascii (true, true,
-    true, false, false, true, true, false)), (String ((Ascii (true, true,
-    true, true, false, true, true, false)), (String ((Ascii (false, true,
-    false, false, true, true, true, false)), (String ((Ascii (true, false,
-    false, true, false, true, true, false)), (String ((Ascii (false, false,
-    true, false, true, true, true, false)), (String ((Ascii (false, false,
-    false, true, false, true, true, false)), (String ((Ascii (true, false,
-    true, true, false, true, true, false)), (String ((Ascii (false, false,
-    false, false, false, true, false, false)), (String ((Ascii (true, false,
-    false, true, false, true, true, false)), (String ((Ascii (true, true,
-    false, false, true, true, true, false)), (String ((Ascii (false, false,
-    false, false, false, true, false, false)), (String ((Ascii (true, true,
-    false, false, true, true, true, false)), (String ((Ascii (true, false,
-    true, false, true, true, true, false)), (String ((Ascii (false, false,
-    false, false, true, true, true, false)), (String ((Ascii (false, false,
-    false, false, true, true, true, false)), (String ((Ascii (true, true,
-    true, true, false, true, true, false)), (String ((Ascii (false, true,
-    false, false, true, true, true, false)), (String ((Ascii (false, false,
-    true, false, true, true, true, false)), (String ((Ascii (true, false,
-    true, false, false, true, true, false)), (String ((Ascii (false, false,
-    true, false, false, true, true, false)),
+    iMB_ERR_JOB_CIPH_DIR }
+
+(** val r_common_mode : rule **)
+
+let r_common_mode =
+  { r_name = (String ((Ascii (true, true, false, false, false, true, true,
+    false)), (String ((Ascii (true, false, false, true, false, true, true,
+    false)), (String ((Ascii (false, false, false, false, true, true, true,
+    false)), (String ((Ascii (false, false, false, true, false, true, true,
+    false)), (String ((Ascii (true, false, true, false, false, true, true,
+    false)), (String ((Ascii (false, true, false, false, true, true, true,
+    false)), (String ((Ascii (false, false, false, false, false, true, false,
+    false)), (String ((Ascii (true, false, true, true, false, true, true,
+    false)), (String ((Ascii (true, true, true, true, false, true, true,
+    false)), (String ((Ascii (false, false, true, false, false, true, true,
+    false)), (String ((Ascii (true, false, true, false, false, true, true,
+    false)), (String ((Ascii (false, false, false, false, false, true, false,
+    false)), (String ((Ascii (true, false, false, true, false, true, true,
+    false)), (String ((Ascii (true, true, false, false, true, true, true,
+    false)), (String ((Ascii (false, false, false, false, false, true, false,
+    false)), (String ((Ascii (true, true, false, false, true, true, true,
+    false)), (String ((Ascii (true, false, true, false, true, true, true,
+    false)), (String ((Ascii (false, false, false, false, true, true, true,
+    false)), (String ((Ascii (false, false, false, false, true, true, true,
+    false)), (String ((Ascii (true, true, true, true, false, true, true,
+    false)), (String ((Ascii (false, true, false, false, true, true, true,
+    false)), (String ((Ascii (false, false, true, false, true, true, true,
+    false)), (String ((Ascii (true, false, true, false, false, true, true,
+    false)), (String ((Ascii (false, false, true, false, false, true, true,
+    false)), EmptyString))))))))))))))))))))))))))))))))))))))))))))))));
+    r_cond = (ValIn ((fun j -> j.jv_cipher_mode),
+    (map fst cipher_catalogue))); r_err = iMB_ERR_CIPH_MODE }
+
+(** val r_common_hash : rule **)
+
+let r_common_hash =
+  { r_name = (String ((Ascii (false, false, false, true, false, true, true,
+    false)), (String ((Ascii (true, false, false, false, false, true, true,
+    false)), (String ((Ascii (true, true, false, false, true, true, true,
+    false)), (String ((Ascii (false, false, false, true, false, true, true,
+    false)), (String ((Ascii (false, false, false, false, false, true, false,
+    false)), (String ((Ascii (true, false, false, false, false, true, true,
+    false)), (String ((Ascii (false, false, true, true, false, true, true,
+    false)), (String ((Ascii (true, true, true, false, false, true, true,
+    false)), (String ((Ascii (true, true, true, true, false, true, true,
+    false)), (String ((Ascii (false, true, false, false, true, true, true,
+    false)), (String ((Ascii (true, false, false, true, false, true, true,
+    false)), (String ((Ascii (false, false, true, false, true, true, true,
+    false)), (String ((Ascii (false, false, false, true, false, true, true,
+    false)), (String ((Ascii (true, false, true, true, false, true, true,
+    false)), (String ((Ascii (false, false, false, false, false, true, false,
+    false)), (String ((Ascii (true, false, false, true, false, true, true,
+    false)), (String ((Ascii (true, true, false, false, true, true, true,
+    false)), (String ((Ascii (false, false, false, false, false, true, false,
+    false)), (String ((Ascii (true, true, false, false, true, true, true,
+    false)), (String ((Ascii (true, false, true, false, true, true, true,
+    false)), (String ((Ascii (false, false, false, false, true, true, true,
+    false)), (String ((Ascii (false, false, false, false, true, true, true,
+    false)), (String ((Ascii (true, true, true, true, false, true, true,
+    false)), (String ((Ascii (false, true, false, false, true, true, true,
+    false)), (String ((Ascii (false, false, true, false, true, true, true,
+    false)), (String ((Ascii (true, false, true, false, false, true, true,
+    false)), (String ((Ascii (false, false, true, false, false, true, true,
+    false)),
     EmptyString))))))))))))))))))))))))))))))))))))))))))))))))))))));
     r_cond = (ValIn ((fun j -> j.jv_hash_alg), (map fst hash_catalogue)));
-    r_err = iMB_ERR_HASH_ALGO } :: []))
+    r_err = iMB_ERR_HASH_ALGO }
+
+(** val common_rules : rule list **)
+
+let common_rules =
+  r_common_dir :: (r_common_mode :: (r_common_hash :: []))
 
 (** val all_rules : job_view -> rule list **)
 
